@@ -20,6 +20,7 @@
  Author: Victor Zverovich
  */
 
+#include <limits.h>
 #include <math.h>
 #include <stdarg.h>
 
@@ -187,7 +188,8 @@ static int check_const_arg(arglist *al, unsigned index, const char *name) {
 /* Checks if the argument with the specified index is representable as int. */
 static int check_int_arg(arglist *al, unsigned index, const char *name) {
   double arg = al->ra[index];
-  if ((int)arg != arg) {
+  /* Test the range first: converting an out-of-range or NaN value is undefined. */
+  if (!(arg >= INT_MIN && arg <= INT_MAX) || (int)arg != arg) {
     error(al, "argument '%s' can't be represented as int, %s = %g",
           name, name, arg);
     return 0;
@@ -201,7 +203,7 @@ static int check_int_arg(arglist *al, unsigned index, const char *name) {
    unsigned int. */
 static int check_uint_arg(arglist *al, unsigned index, const char *name) {
   double arg = al->ra[index];
-  if ((unsigned)arg != arg) {
+  if (!(arg >= 0 && arg <= UINT_MAX) || (unsigned)arg != arg) {
     error(al, "argument '%s' can't be represented as unsigned int, %s = %g",
         name, name, arg);
     return 0;
@@ -218,7 +220,7 @@ static int check_uint_arg(arglist *al, unsigned index, const char *name) {
  */
 static int check_zero_func_args(arglist *al, unsigned s_index) {
   double arg = al->ra[s_index];
-  if ((unsigned)arg != arg) {
+  if (!(arg >= 0 && arg <= UINT_MAX) || (unsigned)arg != arg) {
     error(al, "argument 's' can't be represented as unsigned int, s = %g", arg);
     return 0;
   }
